@@ -96,6 +96,12 @@ func Check(accs []any, next []any, mut []any) []any {
 	return run(accs, next, mut)
 }
 
+// Verify is the entry of a Verification-trigger context when the contract is a
+// transaction witness: there is no calling script at all.
+func Verify(acc []byte) bool {
+	return runtime.CheckWitness(acc)
+}
+
 func OnNEP17Payment(from interop.Hash160, amount int, data any) {
 	d := data.([]any)
 	runtime.Notify("w", run(d[0].([]any), d[1].([]any), d[2].([]any)))
@@ -211,6 +217,18 @@ type chainSpec struct {
 	syms []sym
 	muts []int8
 	id   string
+	// mode: 0 = Application trigger, the generated script is the transaction's entry script;
+	// 1 = Verification trigger, the generated script is a witness verification script
+	//     (Blockchain.InitVerificationContext, read-only flags);
+	// 2 = Verification trigger, the entry context is the verify method of the probe syms[0]
+	//     (a deployed contract used as a witness), one VM run per target.
+	mode int
+}
+
+func (c chainSpec) withMode(m int) chainSpec {
+	c.mode = m
+	c.id = []string{"", "V:", "verify:"}[m] + c.id
+	return c
 }
 
 func mkChain(syms []sym, muts []int8) chainSpec {
@@ -229,6 +247,9 @@ func mkChain(syms []sym, muts []int8) chainSpec {
 		case muts[i] >= 0:
 			id += string(rune('0' + muts[i]))
 		}
+	}
+	if id == "" {
+		id = "-"
 	}
 	return chainSpec{syms: syms, muts: muts, id: id}
 }
